@@ -508,14 +508,24 @@ func vC12Trunc(n int) vC12Topo {
 // SOA, as for an empty non-terminal) and only refers to the [zl]-label zone when asked a longer
 // name. With qname-minimisation the resolver has then walked past the cut it is referred to
 // (rs.level > labels of the referral) and restarts from the root without minimisation.
-func vC12Late(zl, empty, ql int) vC12Topo {
+// [tail] further delegations, one label each, hang below the zone: everything the restarted walk
+// sends — root, zone, tail levels — comes after the restart.
+func vC12Late(zl, empty, ql int) vC12Topo { return vC12LateTail(zl, empty, ql, 0) }
+
+func vC12LateTail(zl, empty, ql, tail int) vC12Topo {
+	if tail > ql-zl-1 {
+		tail = ql - zl - 1
+	}
+	if tail < 0 {
+		tail = 0
+	}
 	labels := make([]string, ql)
 	for i := range labels {
 		labels[i] = fmt.Sprintf("l%d", ql-i)
 	}
 	suffix := func(i int) string { return strings.Join(labels[ql-i:], ".") + "." }
 	zone, qname := suffix(zl), suffix(ql)
-	return vC12Topo{fam: vC12FamLate, p1: empty, p2: ql*10 + zl, name: "late-referral", servers: 2, qname: qname,
+	return vC12Topo{fam: vC12FamLate, p1: empty, p2: tail*100 + ql*10 + zl, name: "late-referral", servers: 2 + tail, qname: qname,
 		answer: func(srv int, q dns.Question, tcp bool) *dns.Msg {
 			lower := strings.ToLower(q.Name)
 			if srv == 0 {
@@ -529,13 +539,18 @@ func vC12Late(zl, empty, ql int) vC12Topo {
 				}
 				return vC12Referral(zone, 1)
 			}
+			// server s is authoritative for the zone of zl+s-1 labels
+			own := suffix(zl + srv - 1)
+			if srv-1 < tail && vC12Sub(suffix(zl+srv), lower) {
+				return vC12Referral(suffix(zl+srv), srv+1)
+			}
 			if lower == qname && q.Qtype == dns.TypeA {
 				return vC12Auth(vC12A(q.Name, net.IPv4(203, 0, 113, 14)))
 			}
-			if vC12Sub(zone, lower) {
-				return vC12Neg(zone, dns.RcodeSuccess)
+			if vC12Sub(own, lower) {
+				return vC12Neg(own, dns.RcodeSuccess)
 			}
-			return vC12Neg(zone, dns.RcodeNameError)
+			return vC12Neg(own, dns.RcodeNameError)
 		}}
 }
 
@@ -566,10 +581,11 @@ func vC12Shared() vC12Topo {
 // finite: the topology resolves (or fails) in bounded work even with the firewall off, quickly
 func vC12RandTopo(r *rand.Rand, finite bool) vC12Topo {
 	switch r.Intn(10) {
-	case 9:
+	case 9, 8:
 		zl := 1 + r.Intn(2)
 		empty := zl + r.Intn(4)
-		return vC12Late(zl, empty, empty+1+r.Intn(3))
+		ql := empty + 1 + r.Intn(3)
+		return vC12LateTail(zl, empty, ql, r.Intn(4))
 	case 0:
 		return vC12Deep(1 + r.Intn(6))
 	case 1:
@@ -912,6 +928,9 @@ func TestVerifC12Lab(t *testing.T) {
 		{vC12Cname(5, true), 42, 10, true}, {vC12Cname(4, true), 40, 6, false}, {vC12Cname(14, false), 60, 5, true},
 		{vC12Cname(25, false), 128, 9, false}, {vC12Dname(8, false), 64, 3, true},
 		{vC12Late(2, 3, 4), 3, 4, true}, {vC12Late(2, 3, 4), 5, 4, true}, {vC12Late(1, 4, 6), 4, 4, true}, {vC12Late(2, 4, 5), 6, 2, true},
+		// the budget ends inside the walk that follows the restart: in its root query, at the zone, in the tail
+		{vC12LateTail(1, 3, 6, 3), 5, 4, true}, {vC12LateTail(1, 3, 6, 3), 6, 4, true}, {vC12LateTail(1, 3, 6, 3), 8, 4, true},
+		{vC12LateTail(2, 4, 6, 2), 6, 4, true}, {vC12LateTail(2, 4, 6, 2), 7, 4, true}, {vC12LateTail(1, 2, 5, 3), 4, 4, true},
 	} {
 		fixed[len(boundary)] = vC12Fixed{f.maxOut, f.maxInt, f.qmin}
 		boundary = append(boundary, f.t)
@@ -974,7 +993,17 @@ func TestVerifC12Lab(t *testing.T) {
 		if isFixed {
 			budget = 5
 		}
+		if !isFixed && c >= len(boundary) && topo.fam == vC12FamLate && r.Intn(3) != 0 {
+			// restart-triggering topologies x budgets: the outbound budget runs out somewhere between the
+			// last minimised question and the end of the walk that follows the restart
+			budget, qmin = 6, true
+		}
 		switch budget {
+		case 6:
+			maxOut, maxInt = uint32(topo.p1+r.Intn(3+topo.p2/100+2)), 4
+			if maxOut == 0 {
+				maxOut = 1
+			}
 		case 5:
 			maxOut, maxInt = fx.maxOut, fx.maxInt
 		case 4:
